@@ -264,6 +264,49 @@ def _is_flag(c: Term, pname: str) -> bool:
     return c.op == "param" and c.args[0] == pname
 
 
+def comment_history_scenarios(prog, chk, pid, tier):
+    """derive_comments_from_config: the comments after deriving for configuration X and then for Y are the comments a file gets when
+    only Y is derived (same other comments) -- for enumerated pairs (X, Y), including pairs that share the project-settings
+    identifier and differ elsewhere; interpreted in concrete-control mode, final dictionaries compared entry by entry"""
+    import itertools
+
+    from rules import stackrt as R
+
+    P = lambda s: "%s.%s" % (pid, s)
+    stk = R.Stack(prog)
+    fi = prog.method(BF3 + ".Bf3File", "derive_comments_from_config")
+    base = "(0x620, 0x01): b'\\x27\\xfa', (0x620, 0x05): b'\\x00\\x11', (0x620, 0x07): b'\\x09', (0x620, 0x06): b'Prj'"
+    cfgs = {
+        "A: project + device settings + bus address": "{%s, (0x620, 0x02): b'\\x1a\\x85', (0x620, 0x04): b'\\x04', (0x620, 0x03): b'Lobby', (0x620, 0x20): b'\\x01'}" % base,
+        "B: same project id, other device settings, no bus address": "{%s, (0x620, 0x02): b'\\x1a\\x85', (0x620, 0x04): b'\\x05', (0x620, 0x03): b'Garage'}" % base,
+        "C: same project id only": "{%s, (0x620, 0x02): b'\\x1a\\x85'}" % base,
+        "D: other version, bus address": "{(0x620, 0x01): b'\\x27\\xfa', (0x620, 0x05): b'\\x00\\x11', (0x620, 0x07): b'\\x0a', (0x620, 0x06): b'Prj', (0x620, 0x20): b'\\x01'}",
+        "E: no naming values": "{(0x0101, 0x01): b'x'}",
+    }
+    src = ("def drv():\n    f = Bf3File({'Creator': 'keep me'})\n    f.derive_comments_from_config(%s)\n    f.derive_comments_from_config(%s)\n"
+           "    g = Bf3File({'Creator': 'keep me'})\n    g.derive_comments_from_config(%s)\n    return (f.comments, g.comments)\n")
+    bad = None
+    n = 0
+    for (na, ca), (nb, cb) in itertools.permutations(cfgs.items(), 2):
+        n += 1
+        ex, res = stk.run(BF3, src % (ca, cb, cb), {})
+        if res.dead or res.ret is None:
+            bad = bad or ("%s then %s" % (na, nb), "raises %s" % (ex._dead[1] if ex._dead else "?"))
+            continue
+        fc, gc = unsnap(res.ret).args[0]
+        fo, go = ex.obj(res.state, fc), ex.obj(res.state, gc)
+        if fo is None or go is None or not (fo.exact and go.exact):
+            bad = bad or ("%s then %s" % (na, nb), "final comments are not a definite dictionary")
+            continue
+        fa = {k: (cval(v) if is_const(v) else show(v, 4)) for k, v in fo.kv.items()}
+        ga = {k: (cval(v) if is_const(v) else show(v, 4)) for k, v in go.kv.items()}
+        if fa != ga or fa.get("Creator") != "keep me":
+            diff = {k: (fa.get(k), ga.get(k)) for k in set(fa) | set(ga) if fa.get(k) != ga.get(k)}
+            bad = bad or ("%s then %s" % (na, nb), "comments differ from a fresh derivation of the second configuration: %s" % diff)
+    chk.require(bad is None, P("comment-history-scenarios"), fi.qualname, "%d ordered pairs of configurations" % n, "%s:%d" % (fi.file, fi.lineno),
+                "after deriving comments for X and then Y the comments equal those of a file on which only Y was derived; unrelated comments are untouched", "%s: %s" % bad if bad else "")
+
+
 def derivation_scenarios(prog, chk, pid, tier):
     """derive_auth_blocks_from_config on enumerated configurations: which naming values / security code are present is enumerated,
     the security code, the two version values and the numeric naming values are symbolic byte strings; interpreted in
@@ -338,3 +381,4 @@ def run(prog, chk, tier):
     comments_rules(prog, chk, "C11")
     auth_block_rules(prog, chk, "C11")
     stackrt.guarded(chk, "C11.derivation-scenarios", derivation_scenarios, prog, chk, "C11", tier)
+    stackrt.guarded(chk, "C11.comment-history-scenarios", comment_history_scenarios, prog, chk, "C11", tier)
